@@ -95,4 +95,195 @@ theorem hrun_line (l : Bytes) (hl : LF ∉ l) : ∀ (h : HSt), h.inHeader = true
     rw [hrun_cons]
     exact ⟨i1, by omega, fun x => i3 (s3 x)⟩
 
+/-! ### `pm` is "starts with, ignoring ASCII case" -/
+
+theorem byte_cases (P : Byte → Prop) (h : ∀ n, n < 256 → P (UInt8.ofNat n)) (c : Byte) : P c := by
+  have := h c.toNat (UInt8.toNat_lt c)
+  simpa using this
+
+/-- comparing with the lower-case and the upper-case letter = comparing the lower-cased byte -/
+def pairOK (c : Byte) : Bool :=
+  (patX ++ patZ).all (fun pq => (c == pq.1 || c == pq.2) == (lowerByte c == pq.1))
+
+set_option maxRecDepth 100000 in
+theorem pairOK_all : ∀ c : Byte, pairOK c = true := byte_cases _ (by decide)
+
+theorem pm_eq (ps : List (Byte × Byte))
+    (hps : ∀ pq ∈ ps, ∀ c : Byte, (c == pq.1 || c == pq.2) = (lowerByte c == pq.1)) :
+    ∀ l : Bytes, pm ps l = (lower (l.take ps.length) == ps.map Prod.fst) := by
+  induction ps with
+  | nil => intro l; simp [pm, lower]
+  | cons pq ps ih =>
+    obtain ⟨p, q⟩ := pq
+    intro l
+    cases l with
+    | nil => simp [pm, lower]
+    | cons c cs =>
+      have h1 := hps (p, q) (by simp) c
+      have h2 := ih (fun pq h => hps pq (by simp [h])) cs
+      simp only [pm, h2, List.length_cons, List.take_succ_cons, lower, List.map_cons] at h1 ⊢
+      rw [h1]
+      simp [lower]
+
+theorem pair_of_mem (pq : Byte × Byte) (h : pq ∈ patX ++ patZ) (c : Byte) :
+    (c == pq.1 || c == pq.2) = (lowerByte c == pq.1) := by
+  have := pairOK_all c
+  unfold pairOK at this
+  rw [List.all_eq_true] at this
+  simpa using this pq h
+
+theorem pmX_eq (l : Bytes) : pm patX l = startsCI kwReceived l := by
+  rw [pm_eq patX (fun pq h => pair_of_mem pq (by simp [h]))]
+  rfl
+
+theorem pmZ_eq (l : Bytes) : pm patZ l = startsCI kwDelivered l := by
+  rw [pm_eq patZ (fun pq h => pair_of_mem pq (by simp [h]))]
+  rfl
+
+/-- a line cannot start with both words -/
+theorem not_both (l : Bytes) : ¬ (startsCI kwReceived l = true ∧ startsCI kwDelivered l = true) := by
+  cases l with
+  | nil => simp [startsCI, kwReceived, lower]
+  | cons c cs =>
+    rintro ⟨h1, h2⟩
+    simp [startsCI, kwReceived, kwDelivered, lower] at h1 h2
+    have a := h1.1
+    have b := h2.1
+    rw [a] at b
+    exact absurd b (by decide)
+
+/-! ### lines -/
+
+theorem lines_ne_nil (bs : Bytes) : lines bs ≠ [] := by
+  cases bs with
+  | nil => simp [lines]
+  | cons c r =>
+    unfold lines
+    split
+    · simp
+    · split <;> simp
+
+theorem lines_lffree (l : Bytes) (hl : LF ∉ l) : lines l = [l] := by
+  induction l with
+  | nil => rfl
+  | cons c cs ih =>
+    have hc : c ≠ LF := fun e => hl (by simp [e])
+    have hcs : LF ∉ cs := fun e => hl (by simp [e])
+    unfold lines
+    rw [if_neg hc, ih hcs]
+
+theorem lines_append_lf (l r : Bytes) (hl : LF ∉ l) : lines (l ++ LF :: r) = l :: lines r := by
+  induction l with
+  | nil => simp [lines]
+  | cons c cs ih =>
+    have hc : c ≠ LF := fun e => hl (by simp [e])
+    have hcs : LF ∉ cs := fun e => hl (by simp [e])
+    rw [List.cons_append, lines, if_neg hc, ih hcs]
+
+/-! ### the scanner on one line, from the start of the line -/
+
+def hopBit (l : Bytes) : Nat := if isHop l then 1 else 0
+
+theorem fresh_line (n : Nat) (l : Bytes) (hl : LF ∉ l) :
+    (hrun (fresh n) l).inHeader = true ∧ (hrun (fresh n) l).hops = n + hopBit l ∧
+    (((hrun (fresh n) l).my && (hrun (fresh n) l).pos == 1) = (l == [CR])) := by
+  obtain ⟨h1, h2, _⟩ := hrun_line l hl (fresh n) rfl
+  refine ⟨h1, ?_, ?_⟩
+  · rw [h2]
+    have nb := not_both l
+    simp only [pendX, pendZ, fresh, hopBit, isHop, List.drop_zero, pmX_eq, pmZ_eq]
+    cases hx : startsCI kwReceived l <;> cases hz : startsCI kwDelivered l <;> simp_all
+  · cases l with
+    | nil => simp [fresh]
+    | cons c cs =>
+      have hc : c ≠ LF := fun e => hl (by simp [e])
+      cases cs with
+      | nil =>
+        have hc' : (c == LF) = false := by simpa using hc
+        simp [fresh, hstep, hc, hc', CR, LF]
+      | cons d ds =>
+        have hd : d ≠ LF := fun e => hl (by simp [e])
+        have hds : LF ∉ ds := fun e => hl (by simp [e])
+        have p2 : 2 ≤ (hstep (hstep (fresh n) c) d).pos ∧ (hstep (hstep (fresh n) c) d).inHeader = true := by
+          have hc' : (c == LF) = false := by simpa using hc
+          have hd' : (d == LF) = false := by simpa using hd
+          have hd'' : ¬ d = 10 := hd
+          simp [fresh, hstep, hc, hc', hd, hd', hd'', CR, LF]
+        obtain ⟨_, _, k3⟩ := hrun_line ds hds _ p2.2
+        have := k3 p2.1
+        rw [hrun_cons, hrun_cons]
+        have hne : ((hrun (hstep (hstep (fresh n) c) d) ds).pos == 1) = false := by simp; omega
+        rw [hne]; simp
+
+/-- the scanner after a complete header line `l LF` -/
+theorem fresh_line_lf (n : Nat) (l : Bytes) (hl : LF ∉ l) :
+    hrun (fresh n) (l ++ [LF]) =
+      if l = [CR] then { inHeader := false, pos := 0, mx := true, my := true, mz := true, hops := n + hopBit l }
+      else fresh (n + hopBit l) := by
+  obtain ⟨h1, h2, h3⟩ := fresh_line n l hl
+  rw [hrun_append, hrun_cons, hrun_nil, hstep_lf _ h1, h2, h3]
+  by_cases e : l = [CR]
+  · simp [e]
+  · have : (l == [CR]) = false := by simpa using e
+    simp [e, this, fresh]
+
+/-! ### the theorem -/
+
+theorem hopBit_cr : hopBit [CR] = 0 := by decide
+
+theorem hopSpec_lffree (l : Bytes) (hl : LF ∉ l) : hopSpec l = hopBit l := by
+  unfold hopSpec header
+  rw [lines_lffree l hl]
+  by_cases e : l = [CR]
+  · subst e; decide
+  · have : (l != [CR]) = true := by simpa using e
+    simp [List.takeWhile, this, hopBit, List.filter]
+    split <;> simp_all
+
+theorem hopSpec_append_lf (l r : Bytes) (hl : LF ∉ l) :
+    hopSpec (l ++ LF :: r) = if l = [CR] then 0 else hopBit l + hopSpec r := by
+  unfold hopSpec header
+  rw [lines_append_lf l r hl]
+  by_cases e : l = [CR]
+  · subst e; simp [List.takeWhile]
+  · have : (l != [CR]) = true := by simpa using e
+    simp only [List.takeWhile, this, if_neg e, List.filter, hopBit]
+    cases isHop l <;> simp <;> omega
+
+/-- generalised over the hops counted so far and the part of the current line already read -/
+theorem hops_gen (bs : Bytes) : ∀ (n : Nat) (cur : Bytes), LF ∉ cur →
+    (hrun (fresh n) (cur ++ bs)).hops = n + hopSpec (cur ++ bs) := by
+  induction bs with
+  | nil =>
+    intro n cur hcur
+    rw [List.append_nil, hopSpec_lffree cur hcur]
+    exact (fresh_line n cur hcur).2.1
+  | cons c r ih =>
+    intro n cur hcur
+    by_cases hc : c = LF
+    · subst hc
+      rw [hopSpec_append_lf cur r hcur]
+      have e : cur ++ LF :: r = (cur ++ [LF]) ++ r := by simp
+      rw [e, hrun_append, fresh_line_lf n cur hcur]
+      by_cases e2 : cur = [CR]
+      · rw [if_pos e2, if_pos e2, hrun_out _ _ rfl]
+        subst e2
+        simp [hopBit_cr]
+      · rw [if_neg e2, if_neg e2]
+        have := ih (n + hopBit cur) [] (by simp)
+        simp only [List.nil_append] at this
+        rw [this]; omega
+    · have e : cur ++ c :: r = (cur ++ [c]) ++ r := by simp
+      rw [e]
+      apply ih
+      intro hm
+      rcases List.mem_append.mp hm with h | h
+      · exact hcur h
+      · simp at h; exact hc h.symm
+
+/-- **the hop scanner of `blast()` computes the line-based hop count, for every byte stream** -/
+theorem hopsOf_eq_hopSpec (bs : Bytes) : hopsOf bs = hopSpec bs := by
+  have := hops_gen bs 0 [] (by simp)
+  simpa [hopsOf, hrun, fresh] using this
+
 end Nq.Lemmas.HopCount
